@@ -29,6 +29,7 @@ type Gen struct {
 	denoms  []string
 	whales  map[string][][]byte // extreme profile: denom -> accounts holding 2^253..2^254 of it
 	Stats   map[string]int
+	inMut   bool
 }
 
 var urls = []string{"https://n.example:8080", "https://10.0.0.1:443", "https://a.b:1", "http://n.example:80", "https://noport.example", "",
@@ -50,7 +51,22 @@ func NewGen(seed int64, profile string, w *Runner) *Gen {
 func (g *Gen) line(format string, a ...interface{}) error {
 	l := fmt.Sprintf(format, a...)
 	g.Ops = append(g.Ops, l)
-	return g.Run.Exec(l)
+	if err := g.Run.Exec(l); err != nil {
+		return err
+	}
+	if g.Profile == "validate" && !g.inMut && strings.HasPrefix(l, "tx ") {
+		// single-field boundary variants of the transaction just executed (mutate.go)
+		g.inMut = true
+		defer func() { g.inMut = false }()
+		for _, m := range g.mutateTx(l, 1+g.pick(3)) {
+			g.Ops = append(g.Ops, m)
+			g.Stats["mut"]++
+			if err := g.Run.Exec(m); err != nil {
+				return err
+			}
+		}
+	}
+	return nil
 }
 
 func (g *Gen) pick(n int) int { return g.R.Intn(n) }
